@@ -207,7 +207,7 @@ def _shards(tier):
 
 HARNESSES = [
     H(crash_history, shards=_shards, labels=("end", "crashed", "crash2", "nocrash"),
-      timeout={"quick": 60, "thorough": 900}),
+      timeout={"quick": 150, "thorough": 900}),
 ]
 
 VECTORS = {
